@@ -54,6 +54,131 @@ def case(mod, servers, pre="-", locs=(), env="n", drop="-", tmo=3000):
     return " ".join([hx(df), ID, hx(cf), CI, pre, str(len(locs)), *locs, env, str(drop), str(tmo), str(len(servers)), *servers])
 
 
+def source_atoms():
+    """Generator dictionary taken from the code under test: the record keywords the parser matches
+    (`tag("...")` in sym_file/parser.rs) and the string literals of http.rs (`INFO URL {url}\\n`, query keys ...).
+    A keyword added to the parser, or a new literal in the cache code, becomes a body ingredient by itself."""
+    import os
+    import vlib
+    kws, lits = [], []
+    try:
+        src = open(os.path.join(vlib.REPO, "breakpad-symbols/src/sym_file/parser.rs")).read().split("#[cfg(test)]")[0]
+        for m in re.finditer(r'tag\(b?"((?:[^"\\\n]|\\.)+)"\)', src):
+            t = m.group(1)
+            if "\\" not in t and t not in kws:
+                kws.append(t)
+    except OSError:
+        pass
+    try:
+        src = open(os.path.join(vlib.REPO, "breakpad-symbols/src/http.rs")).read().split("#[cfg(test)]")[0]
+        for m in re.finditer(r'"((?:[^"\\\n]|\\.){1,40})"', src):
+            t = m.group(1).replace("\\n", "")
+            t = re.sub(r"\{[^}]*\}", "", t).strip()
+            if t and "\\" not in t and len(t) <= 24 and t not in lits:
+                lits.append(t)
+    except OSError:
+        pass
+    for k in ("MODULE", "INFO URL", "INFO", "FILE", "INLINE_ORIGIN", "PUBLIC", "FUNC", "INLINE", "STACK WIN", "STACK CFI", "STACK CFI INIT", "m"):
+        if k not in kws:
+            kws.append(k)
+    if "INFO URL" not in lits:
+        lits.append("INFO URL")
+    return kws, lits
+
+
+UPSTREAM = [b"http://upstream.example/sym/test.pdb/ABC/test.sym", b"https://a/b?c=d&e=f", b"x", b"http://127.0.0.1:1/evil",
+            b"file:///etc/passwd", b"http://h/a b", b"\xc3\xa9", b"INFO URL nested"]
+
+
+class BodyGen:
+    """Bodies from dictionary atoms: well-formed records for every keyword the parser knows, the cache
+    code's own literals (INFO URL ...) at every position, CRLF / LF line ends, blank lines, junk."""
+
+    def __init__(self, rng):
+        self.rng = rng
+        self.kws, self.lits = source_atoms()
+        self.known = {"MODULE", "INFO URL", "INFO", "FILE", "INLINE_ORIGIN", "PUBLIC", "FUNC", "INLINE", "STACK WIN", "STACK CFI", "STACK CFI INIT", "m"}
+
+    def info_url(self):
+        r = self.rng
+        u = r.choice(UPSTREAM)
+        form = r.below(8)
+        if form == 0:
+            return b"INFO URL  " + u            # two blanks (space1)
+        if form == 1:
+            return b"INFO URL\t" + u
+        if form == 2:
+            return b"INFO URL " + u + b" "
+        return b"INFO URL " + u
+
+    def record(self, kw, i):
+        """a well-formed record (list of lines) for a keyword; unknown keywords get a generic line"""
+        r = self.rng
+        a = 0x1000 + 0x100 * i
+        if kw == "MODULE":
+            return [b"MODULE Linux x86_64 " + ID.encode() + b" again.pdb"]
+        if kw == "INFO URL":
+            return [self.info_url()]
+        if kw == "INFO":
+            return [r.choice([b"INFO CODE_ID " + CI.encode() + b" x.dll", b"INFO GENERATOR mozilla/dump_syms 2.3.1", b"INFO URLX y", b"INFO  URL z"])]
+        if kw == "FILE":
+            return [b"FILE %d src/f%d.c" % (i, i)]
+        if kw == "INLINE_ORIGIN":
+            return [b"INLINE_ORIGIN %d inl%d()" % (i, i)]
+        if kw == "PUBLIC":
+            return [b"PUBLIC %s%x 0 pub%d" % (b"m " if r.chance(1, 4) else b"", 0x9000 + 0x10 * i, i)]
+        if kw in ("FUNC", "INLINE", "m"):
+            ls = [b"FUNC %s%x 20 0 fn%d(int)" % (b"m " if kw == "m" else b"", a, i)]
+            if kw == "INLINE" or r.chance(1, 4):
+                ls.append(b"INLINE 0 %d 0 0 %x 8" % (10 + i, a))
+            ls += [b"%x 10 %d 0" % (a, 10 + i), b"%x 10 %d 1" % (a + 0x10, 11 + i)]
+            return ls
+        if kw == "STACK WIN":
+            return [r.choice([b"STACK WIN 4 %x 20 0 0 4 0 0 0 0 $eip $esp ^ =" % a, b"STACK WIN 0 %x 20 0 0 4 0 0 0 1 1" % a])]
+        if kw in ("STACK CFI INIT", "STACK CFI"):
+            ls = [b"STACK CFI INIT %x 20 .cfa: $rsp 8 + .ra: .cfa -8 + ^" % a]
+            if kw == "STACK CFI" or r.chance(1, 2):
+                ls.append(b"STACK CFI %x .cfa: $rsp 16 +" % (a + 4))
+            return ls
+        return [kw.encode() + b" %x 1 2 name%d" % (a, i)]
+
+    def body(self, df, url_mode=None, eol=None, junk=False, final_nl=True):
+        r = self.rng
+        if url_mode is None:
+            url_mode = r.choice(["none", "none", "none", "after_module", "middle", "last", "several", "first"])
+        if eol is None:
+            eol = r.choice([b"\n", b"\n", b"\n", b"\r\n", b"mixed"])
+        lines = [b"MODULE Linux x86_64 " + ID.encode() + b" " + df]
+        pool = [k for k in self.kws if k not in ("MODULE", "INFO URL")]
+        for i in range(r.range(1, 7)):
+            lines += self.record(r.choice(pool), i)
+            if r.chance(1, 10):
+                lines.append(b"")
+        if url_mode == "after_module":
+            lines.insert(1, self.info_url())
+        elif url_mode == "middle":
+            lines.insert(r.range(1, len(lines)), self.info_url())    # may split a FUNC from its line records: the parser decides
+        elif url_mode == "last":
+            lines.append(self.info_url())
+        elif url_mode == "several":
+            lines.insert(1, self.info_url())
+            lines.append(self.info_url())
+            lines.append(self.info_url())
+        elif url_mode == "first":
+            lines = [self.info_url()] + (lines[1:] if r.chance(1, 2) else lines)
+        if junk:
+            j = r.range(0, len(lines))
+            lit = r.choice(self.lits + self.kws).encode()
+            lines.insert(j, r.choice([lit, lit + b" ", lit.lower() + b" 1", b"X" + lit + b" 1 2", b"GARBAGE", b"MODULE again x 1 y", b"FUNC zz 1 2 n", b"\r", b"a\rb"]))
+        out = b""
+        for k, l in enumerate(lines):
+            e = eol if eol != b"mixed" else r.choice([b"\n", b"\r\n", b"\r\r\n"])
+            if k == len(lines) - 1 and not final_nl:
+                e = b""
+            out += l + e
+        return out
+
+
 BLOCK = re.compile(r"([ABXY])\{([^}]*)\}")
 
 
@@ -105,7 +230,8 @@ def sig(b):
 
 class C16(PropBase):
     pid = "C16"
-    coq_dirs = ["Base", "C16"]
+    coq_dirs = ["Base", "C08", "C09", "C10", "C11", "C16"]
+    translators = []
     translators = []
     bins = ["c16"]
     impl_timeout = 600
@@ -154,7 +280,10 @@ class C16(PropBase):
     def gen_cases(self, tier, seed):
         rng = Rng(seed)
         cases = []
-        dist = {"truncate_every_k": 0, "corrupt_line_j": 0, "drop": 0, "random": 0, "big": 0, "special": 0}
+        dist = {"truncate_every_k": 0, "corrupt_line_j": 0, "drop": 0, "random": 0, "big": 0, "special": 0,
+                "own_info_url": 0, "dictionary_bodies": 0, "cut_at_line_boundary": 0}
+        bg = BodyGen(rng)
+        dist["dictionary_atoms"] = len(bg.kws) + len(bg.lits)
         thorough = tier != "quick"
         df0 = MODS[0][0]
         base = join(sym_lines(df0))
@@ -248,6 +377,29 @@ class C16(PropBase):
             specials.append(case(0, [srv(body=base)], env="w%d" % w))
         for c in specials:
             add("special", c)
+        # bodies that carry INFO URL records of their own (a mirror serving another instance's cache):
+        # every position x line ending x framing; also as pre-existing entry and behind a failing server
+        for um in ("after_module", "middle", "last", "several", "first"):
+            for eol in (b"\n", b"\r\n", b"mixed"):
+                for rep in range(2 if not thorough else 6):
+                    b = bg.body(df0, url_mode=um, eol=eol)
+                    nb_ = len(b)
+                    o3 = "%d,%d" % (nb_ // 3, 2 * nb_ // 3)
+                    add("own_info_url", case(0, [srv(body=b)]))
+                    add("own_info_url", case(0, [srv(framing="K" + o3, body=b)]))
+                    add("own_info_url", case(0, [srv(framing="E", body=b)]))
+                    add("own_info_url", case(0, [srv(rng.choice([404, 500])), srv(framing="L" + o3, body=b)]))
+                b = bg.body(df0, url_mode=um, eol=eol)
+                add("own_info_url", case(0, [srv(body=base)], pre="F" + hx(b)))
+                add("own_info_url", case(0, [srv(body=base)], locs=["F" + hx(b)]))
+                add("own_info_url", case(0, [srv(framing="K7", body=b)], drop=rng.below(12)))
+        # every cut directly after a '\n' (the received prefix is a well-formed shorter file), all framings
+        nls = [i + 1 for i in range(n) if base[i:i + 1] == b"\n"]
+        for k in nls:
+            for fr in ("L%d" % (k // 2), "K%d" % (k // 2), "K%d" % k):
+                for ct in ("c", "r"):
+                    if k < n:
+                        add("cut_at_line_boundary", case(0, [srv(framing=fr, cut="%s%d" % (ct, k), body=base)]))
         # 200 KiB file, sampled cuts
         big_lines = sym_lines(df0, nfunc=2400, npub=1200)
         big = join(big_lines)
@@ -271,8 +423,11 @@ class C16(PropBase):
                 st = rng.choice([200, 200, 200, 200, 404, 404, 500, 403, 503])
                 bsel = rng.below(10)
                 ls = sym_lines(df, nfunc=rng.below(4), npub=rng.below(4))
-                if bsel < 5:
+                if bsel < 3:
                     body = join(ls)
+                elif bsel < 5:
+                    body = bg.body(df, junk=rng.chance(1, 5), final_nl=not rng.chance(1, 12))
+                    dist["dictionary_bodies"] += 1
                 elif bsel == 5:
                     j = rng.below(len(ls) + 1)
                     body = join(ls[:j] + [rng.choice([b"GARBAGE", b"ZZZ 1 2", b"MODULE again x 1 y"]) if j else b"XGARBAGE"] + ls[j:])
@@ -291,17 +446,18 @@ class C16(PropBase):
                     fr += ",".join(map(str, offs))
                 cut = "-"
                 c = rng.below(10)
+                lb = [i + 1 for i in range(nbod - 1) if body[i:i + 1] == b"\n"]
                 if c == 0:
-                    cut = "c%d" % rng.below(nbod + 1)
+                    cut = "c%d" % (rng.choice(lb) if lb and rng.chance(1, 2) else rng.below(nbod + 1))
                 elif c == 1:
-                    cut = "r%d" % rng.below(nbod) if nbod else "-"
+                    cut = "r%d" % (rng.choice(lb) if lb and rng.chance(1, 2) else rng.below(nbod)) if nbod else "-"
                 elif c == 2:
                     cut = "h"
                 servers.append(srv(st, fr, cut, None, body))
             pre = "-"
             c = rng.below(12)
             if c == 0:
-                pre = "F" + hx(good)
+                pre = "F" + hx(rng.choice([good, bg.body(df), bg.body(df, url_mode="last")]))
             elif c == 1:
                 pre = "F" + hx(b"BROKEN\n")
             elif c == 2:
@@ -356,7 +512,7 @@ class C16(PropBase):
         return "".join(self.canon_block(c, k, bl[k]) for k in "ABXY" if k in bl)
 
     def canon_model(self, case, ans):
-        return ans
+        return None if ans == "?" else ans
 
     # ------------------------------------------------------------------ oracle (independent of the model)
     def oracle(self, case, ans, profile):
